@@ -1,6 +1,10 @@
 package mon
 
 import (
+	"context"
+	crand "crypto/rand"
+	"crypto/sha256"
+	"encoding/hex"
 	"encoding/json"
 	"fmt"
 	"net/url"
@@ -9,6 +13,7 @@ import (
 	"time"
 
 	"github.com/ory/fosite"
+	"github.com/ory/fosite/handler/oauth2"
 
 	"fverif/run"
 	"fverif/sim"
@@ -60,6 +65,7 @@ func mutateTok(v string, n int) string {
 // required scopes, payload truthfulness, for every token of a history and mutants.
 func c09http(c *run.Ctx) {
 	c09LeanSession(c)
+	c09IntegratorStrategy(c)
 	n := c.N(48, 4000)
 	c.Need("http_active_true", 1)
 	c.Need("http_caller_refused", 1)
@@ -413,6 +419,91 @@ func c09LeanSession(c *run.Ctx) {
 				c.Violate(run.Violation{Kind: "payload", Key: "payload lean-session: " + p.name, Detail: fmt.Sprintf("hydrating store=%v: reported sub=%q username=%q tenant=%q, the token's own are sub=%q username=%q tenant=%q; body %s",
 					hydrate, gotSub, gotUser, gotTenant, p.sub, p.user, p.tenant, out.Body)})
 			}
+		}
+	}
+}
+
+// hexStrategy is an integrator-written token strategy: tokens are 64 hex characters of randomness (no dot, no prefix), the
+// store key is the SHA-256 of the token, validity is the session's expiry.
+type hexStrategy struct{}
+
+func (hexStrategy) gen() (string, string, error) {
+	b := make([]byte, 32)
+	if _, err := crand.Read(b); err != nil {
+		return "", "", err
+	}
+	t := hex.EncodeToString(b)
+	return t, hexStrategy{}.sig(t), nil
+}
+func (hexStrategy) sig(t string) string {
+	h := sha256.Sum256([]byte(t))
+	return hex.EncodeToString(h[:])
+}
+func (hexStrategy) valid(r fosite.Requester, k fosite.TokenType) error {
+	if exp := r.GetSession().GetExpiresAt(k); !exp.IsZero() && exp.Before(time.Now()) {
+		return fosite.ErrTokenExpired
+	}
+	return nil
+}
+func (s hexStrategy) AccessTokenSignature(ctx context.Context, t string) string   { return s.sig(t) }
+func (s hexStrategy) RefreshTokenSignature(ctx context.Context, t string) string  { return s.sig(t) }
+func (s hexStrategy) AuthorizeCodeSignature(ctx context.Context, t string) string { return s.sig(t) }
+func (s hexStrategy) GenerateAccessToken(ctx context.Context, r fosite.Requester) (string, string, error) {
+	return s.gen()
+}
+func (s hexStrategy) GenerateRefreshToken(ctx context.Context, r fosite.Requester) (string, string, error) {
+	return s.gen()
+}
+func (s hexStrategy) GenerateAuthorizeCode(ctx context.Context, r fosite.Requester) (string, string, error) {
+	return s.gen()
+}
+func (s hexStrategy) ValidateAccessToken(ctx context.Context, r fosite.Requester, t string) error {
+	return s.valid(r, fosite.AccessToken)
+}
+func (s hexStrategy) ValidateRefreshToken(ctx context.Context, r fosite.Requester, t string) error {
+	return s.valid(r, fosite.RefreshToken)
+}
+func (s hexStrategy) ValidateAuthorizeCode(ctx context.Context, r fosite.Requester, t string) error {
+	return s.valid(r, fosite.AuthorizeCode)
+}
+
+// c09IntegratorStrategy: the caller-authentication rules of the introspection endpoint do not depend on what the shipped
+// strategies' tokens look like.
+func c09IntegratorStrategy(c *run.Ctx) {
+	if !c.Mine(6) && c.NShards > 6 {
+		return
+	}
+	w := world.New(world.Opts{CoreStrategy: func(*fosite.Config) oauth2.CoreStrategy { return hexStrategy{} }})
+	a := world.Basic("conf-a", "secret-of-a")
+	x := w.Token(url.Values{"grant_type": {"password"}, "username": {world.UserName}, "password": {world.UserPass}, "scope": {"offline fosite"}}, a)
+	y := w.Token(url.Values{"grant_type": {"client_credentials"}, "scope": {"fosite"}}, world.Basic("conf-b", "secret-of-b"))
+	if x.Err != nil || y.Err != nil || strings.Contains(x.S("access_token"), ".") {
+		c.Inconcl("integrator strategy world could not issue tokens: " + world.ErrDetail(x.Err) + world.ErrDetail(y.Err))
+		return
+	}
+	type probe struct {
+		name, token, bearer string
+		auth                world.Auth
+		answered            bool
+	}
+	probes := []probe{
+		{"bearer is the inspected access token", x.S("access_token"), x.S("access_token"), world.Auth{}, false},
+		{"bearer is another active access token", x.S("access_token"), y.S("access_token"), world.Auth{}, true},
+		{"bearer is the refresh token of the grant", x.S("access_token"), x.S("refresh_token"), world.Auth{}, false},
+		{"bearer is garbage", x.S("access_token"), strings.Repeat("0", 64), world.Auth{}, false},
+		{"client credentials", x.S("access_token"), "", a, true},
+		{"refresh token inspected, bearer another access token", x.S("refresh_token"), y.S("access_token"), world.Auth{}, true},
+	}
+	for _, p := range probes {
+		out := w.IntrospectHTTP(url.Values{"token": {p.token}}, p.auth, p.bearer)
+		active, _ := out.JSON["active"].(bool)
+		c.Case(fmt.Sprintf("integrator-strategy %s answered=%v active=%v", p.name, out.Err == nil, active))
+		c.Count("c09_integrator_strategy_probes", 1)
+		if !p.answered && (out.Err == nil || active) {
+			c.Violate(run.Violation{Kind: "unauthenticated-caller-answered", Key: "unauthenticated-caller-answered integrator-strategy: " + p.name, Detail: fmt.Sprintf("status %d body %s", out.Status, out.Body)})
+		}
+		if p.answered && !active {
+			c.Violate(run.Violation{Kind: "http-inactive-but-live", Key: "http-inactive-but-live integrator-strategy: " + p.name, Detail: fmt.Sprintf("status %d body %s %s", out.Status, out.Body, world.ErrDetail(out.Err))})
 		}
 	}
 }
